@@ -74,6 +74,11 @@ Structured families (generated from a grammar, not from all strings <= L)
                     quadruples (two strings of each of two shapes, so two
                     expressions of equal frequency) in both orders, and the
                     corresponding pairs
+  boundary_sets()   larger sets around rexpy's group limits: 10/11/12
+                    distinct strings in one fragment (max_strings_in_group
+                    = 10) and 4..7 distinct punctuation characters in one
+                    fragment (max_punc_in_group = 5), alone and inside a
+                    longer shape
   FAMILY_OPTION_POINTS  the 12 option points {default, tag, perl, grep,
                     el='-', el='_-.'} x variableLengthFrags off/on
 """
@@ -484,6 +489,21 @@ def tie_sets(tier='quick'):
                 if where == 0:
                     yield [s2[0], t2[0]]
                     yield [t2[0], s2[0]]
+
+
+def boundary_sets():
+    words = [a + b for a in 'gxyz' for b in 'pqw']
+    for n in (10, 11, 12):
+        yield list(words[:n])
+        yield ['K-' + w for w in words[:n]]
+        yield [w + '-7' for w in words[:n]]
+        yield [w + str(i % 10) * (1 + i % 2) for (i, w) in
+               enumerate(words[:n])]
+    puncs = '!#%&,/:'
+    for n in (4, 5, 6, 7):
+        yield list(puncs[:n])
+        yield ['a' + c + '1' for c in puncs[:n]]
+        yield [c + c for c in puncs[:n]] + [puncs[0]]
 
 
 def _family_points():
